@@ -197,6 +197,7 @@ fn systematic(ctx: &Ctx, errexit: bool) {
                 syntax_error_after: None,
                 with_readonly: false,
                 monitor: false,
+                stdin_tty_stderr: false,
             };
             let mut rng = Rng::new(idx as u64);
             let text = ctlrun::render(&prog, &mut rng);
@@ -419,6 +420,7 @@ pub fn dump(which: &str, n: usize, seed: u64) {
             trap,
             with_readonly: cfg.errors || cfg.vars,
             monitor: cfg.errors && rng.chance(25),
+            stdin_tty_stderr: false,
         };
         let text = ctlrun::render(&p, &mut rng);
         let run_lines: &[Cmd] = match p.syntax_error_after {
